@@ -14,4 +14,4 @@ CONSTANTS
 INVARIANTS
   FullWeekCoversAll EmptyCoversNone FullDayExactlyItsDay EmptyDayExactlyNotItsDay
   DayLengthCovered HalfOpenOnWallClock RowsConsistent NonVacuousTable
-  VerdictsSound RoundTripIdentity
+  VerdictsSound RoundTripIdentity AllOrNothing
